@@ -23,7 +23,7 @@ META = {
                 "csr.action.RW1C.elaborate", "csr.action.RW1S.elaborate", "csr.action._Reserved.elaborate",
                 "csr.reg.FieldAction.__init__", "csr.reg.FieldPort.Signature"],
     "also": 'widths 33/64; shapes given as range objects (unsigned and signed) and as a flag enum; each storage action also inside a register between reserved fields (incl. signed / enum shapes), read through the element port',
-    "bounds": "2 frames from an arbitrary (free) state + 1 frame from reset per configuration; widths 1-8,16 "
+    "bounds": "2 frames from an arbitrary (free) state + 1 frame from reset per configuration; widths 1-8, 33, 64, 65, 130 (thorough up to 257) [round 13; originally:] widths 1-8,16 "
               "(thorough: 1-12,16,24,32) x unsigned/signed/enum x 4 init values",
     "outside": "behaviour while rst is asserted; shapes wider than 32 bits",
     "assumptions": ["single clock domain sync, rst held low", "Amaranth elaborator/NIR trusted as front end",
